@@ -100,8 +100,11 @@ impl<'a> FmtVisitor<'a> {
         let snippet = self.snippet(span);
 
         // Do nothing for spaces in the beginning of the file
-        if start == BytePos(0) && end.0 as usize == snippet.len() && snippet.trim().is_empty() {
-            return;
+        if snippet.trim().is_empty() && self.output_at_start() {
+            let file_start = self.snippet_provider.start_pos();
+            if self.snippet(mk_sp(file_start, start)).trim().is_empty() {
+                return;
+            }
         }
 
         if snippet.trim().is_empty() && !out_of_file_lines_range!(self, span) {
